@@ -246,6 +246,16 @@ def _install_sym():
     shims.set_attr(Numerics, 'gammaln', esf.gammaln)
     shims.set_attr(Numerics, 'comb', esf.comb)
     shims.set_attr(Numerics, 'default_grid', lambda pts: S.constarray(GRIDS[pts]))
+    # model modules that use the `math` module: exp / log / sqrt on symbolic values (math.* would demand a float)
+    import importlib
+    import types
+    for mn in MODULES:
+        try:
+            mmod = importlib.import_module(mn)
+        except Exception:
+            continue
+        if isinstance(getattr(mmod, 'math', None), types.ModuleType):
+            shims.set_attr(mmod, 'math', esf.MathShim())
 
     def dt_stub(dx, nu, ms, gamma, h):
         if CTX['steps'] == 1:
@@ -270,7 +280,11 @@ def _install_sym():
     def wrap(orig):
         def driver(phi, xx, T, *a, **k):
             CTX['T'] = T - k.get('initial_t', 0)
+            d0_ = set(S.CUR.denoms) if S.CUR is not None else set()
             _record_driver(orig, (phi, xx, T) + a, k)
+            if S.CUR is not None:
+                # divisions made by the recorder itself (it evaluates size functions) are the harness's, not the model's
+                CTX.setdefault('harness_denoms', set()).update(set(S.CUR.denoms) - d0_)
             return orig(phi, xx, T, *a, **k)
         driver.__name__ = orig.__name__
         return driver
@@ -437,7 +451,16 @@ def wellformed_unit(name, L, steps):
         import dadi
         n0 = len(S.CUR.trace) if env.symbolic else 0      # branch decisions taken by the model itself start here
         if env.symbolic:
+            den0 = set(S.CUR.denoms)
+            CTX['harness_denoms'] = set()
             fs = _call(f, vals, ns, pts)
+            # a divisor that is NECESSARILY zero on this path (e.g. t/T evaluated eagerly in a zero-length epoch): the
+            # float code divides by zero there (ZeroDivisionError for Python floats), although no later value depends on it
+            for did, dt_ in list(S.CUR.denoms.items()):
+                if did in den0 or did in CTX.get('harness_denoms', ()):
+                    continue
+                if not S.CUR.feasible(dt_ != 0):
+                    env.fail('the model divides by %s, which is zero on this path' % str(dt_)[:60], hard=True)
         else:
             with _RecordDrivers():
                 fs = _call(f, vals, ns, pts)
